@@ -1,14 +1,90 @@
 //! One module per property. `registry()` lists what `tpv check` knows.
 use crate::engine::PropertyInfo;
 
+pub mod c01;
+pub mod c02;
+pub mod c03;
+pub mod c04;
+pub mod c05;
+pub mod c06;
+pub mod c07;
+pub mod c08;
+pub mod c09;
+pub mod c10;
+pub mod c11;
 pub mod c12;
+pub mod c13;
+pub mod c14;
+pub mod c15;
+pub mod c16;
+pub mod c17;
+pub mod c18;
+pub mod c19;
+pub mod c20;
 
 pub fn registry() -> Vec<PropertyInfo> {
-    vec![c12::info()]
+    vec![c01::info(), c02::info(), c03::info(), c04::info(), c05::info(), c06::info(), c07::info(), c08::info(), c09::info(), c10::info(), c11::info(), c12::info(), c13::info(), c14::info(), c15::info(), c16::info(), c17::info(), c18::info(), c19::info(), c20::info()]
 }
 
 /// Helper subcommands used by individual properties (child processes). Returns
 /// Some(exit code) when `args[0]` named one.
-pub fn helper_subcommand(_args: &[String]) -> Option<i32> {
+pub fn helper_subcommand(args: &[String]) -> Option<i32> {
+    if let Some(c) = c01::helper(args) {
+        return Some(c);
+    }
+    if let Some(c) = c02::helper(args) {
+        return Some(c);
+    }
+    if let Some(c) = c03::helper(args) {
+        return Some(c);
+    }
+    if let Some(c) = c04::helper(args) {
+        return Some(c);
+    }
+    if let Some(c) = c05::helper(args) {
+        return Some(c);
+    }
+    if let Some(c) = c06::helper(args) {
+        return Some(c);
+    }
+    if let Some(c) = c07::helper(args) {
+        return Some(c);
+    }
+    if let Some(c) = c08::helper(args) {
+        return Some(c);
+    }
+    if let Some(c) = c09::helper(args) {
+        return Some(c);
+    }
+    if let Some(c) = c10::helper(args) {
+        return Some(c);
+    }
+    if let Some(c) = c11::helper(args) {
+        return Some(c);
+    }
+    if let Some(c) = c13::helper(args) {
+        return Some(c);
+    }
+    if let Some(c) = c14::helper(args) {
+        return Some(c);
+    }
+    if let Some(c) = c15::helper(args) {
+        return Some(c);
+    }
+    if let Some(c) = c16::helper(args) {
+        return Some(c);
+    }
+    if let Some(c) = c17::helper(args) {
+        return Some(c);
+    }
+    if let Some(c) = c18::helper(args) {
+        return Some(c);
+    }
+    if let Some(c) = c19::helper(args) {
+        return Some(c);
+    }
+    if let Some(c) = c20::helper(args) {
+        return Some(c);
+    }
     None
 }
